@@ -86,9 +86,10 @@ func alphabet() []record {
 	return []record{
 		{tag: "file-denied", aa: true, fields: file("DENIED", "open", "foo", "/srv/data/a", "r")},
 		{tag: "file-allowed", aa: true, fields: file("ALLOWED", "mknod", "foobar", "/srv/data/b", "c")},
+		{tag: "child-profile", aa: true, fields: file("DENIED", "open", "foo//null-/srv/bin/tool", "/srv/data/n", "r")},
 		{tag: "file-audit", aa: true, fields: file("AUDIT", "open", "bar", "/srv/data/c", "w")},
 		{tag: "dbus", aa: true, user: true, fields: []kv{{"apparmor", "DENIED", false}, {"operation", "dbus_method_call", false}, {"bus", "system", false}, {"path", "/org/a", false},
-			{"interface", "org.a", false}, {"member", "Get", false}, {"mask", "send", false}, {"name", "org.b", false}, {"pid", "0", true}, {"label", "foo", false}, {"peer_pid", "0", true}, {"peer_label", "unconfined", false}}},
+			{"interface", "org.a", false}, {"member", "Get", false}, {"mask", "send", false}, {"name", "org.b", false}, {"pid", "0", true}, {"label", "foo//&unconfined", false}, {"peer_pid", "0", true}, {"peer_label", "unconfined", false}}},
 		{tag: "net", aa: true, fields: []kv{{"apparmor", "DENIED", false}, {"operation", "create", false}, {"class", "net", false}, {"profile", "foo", false}, {"pid", "0", true}, {"comm", "curl", false},
 			{"family", "inet", false}, {"sock_type", "stream", false}, {"protocol", "6", true}, {"requested_mask", "create", false}, {"denied_mask", "create", false}}},
 		{tag: "cap", aa: true, fields: []kv{{"apparmor", "ALLOWED", false}, {"operation", "capable", false}, {"class", "cap", false}, {"profile", "bar", false}, {"pid", "0", true}, {"comm", "ip", false},
@@ -213,7 +214,7 @@ func c14(minLen, maxLen, shard, of int) int {
 		A = B
 	}
 	n := 0
-	filters := []string{"", "foo", "bar", "zzz"}
+	filters := []string{"", "foo", "bar", "zzz", "foo//"}
 	for L := minLen; L <= maxLen; L++ {
 		enum.Tuples(len(A), L, shard, of, func(seq []int) {
 			tags := []string{}
@@ -396,8 +397,9 @@ func permutations(n int, f func(p []int)) {
 
 func c15() int {
 	n := 0
-	names := []string{"/srv/x", "/srv/a b", "/srv/a=b", "/srv/a#b", "/srv/a,b", "/srv/é", `/srv/a"b`, "ABBA", "/srv/name=x", "/srv/a'b"}
-	comms := []string{"cat", "my prog", "ABBA", "a=b"}
+	names := []string{"/srv/x", "/srv/a b", "/srv/a=b", "/srv/a#b", "/srv/a,b", "/srv/é", `/srv/a"b`, "ABBA", "/srv/name=x", "/srv/a'b",
+		"/srv/a\\b", "/srv/a\tb", "/srv/caf\xe9", "/srv/a\u00a0b", "/srv/a\x01b"}
+	comms := []string{"cat", "my prog", "ABBA", "a=b", "my\tprog"}
 	profiles := []string{"foo", "foo bar", "DEAD", "foo//null-/srv/x"}
 	optional := [][]kv{
 		{{"requested_mask", "r", false}, {"denied_mask", "r", false}},
